@@ -376,6 +376,16 @@ class WithOptions(Evaluatable[B]):
             else mix(self.options, options)  # type: ignore
         )
 
+    def _preset(self, key: str, options: Options, mixed: Options) -> bool:
+        """Whether the value under key is fully determined by the pre-set options."""
+        if not dotted_key_exists(key, self.options):
+            return False
+        if not dotted_key_exists(key, options):
+            return True
+        return self.force and get_dotted_key(key, mixed) == get_dotted_key(
+            key, self.options
+        )
+
     def evaluate(self, options: Options) -> B:
         """Evaluate the wrapped Evaluatable object with the provided options."""
         return self.evaluatable.evaluate(self._options(options))
@@ -386,25 +396,21 @@ class WithOptions(Evaluatable[B]):
 
     def keys(self, options: Options) -> Set[str]:
         """Return the keys required by the wrapped Evaluatable object."""
+        mixed = self._options(options)
         return {
             key
-            for key in self.evaluatable.keys(self._options(options))
-            if not (
-                dotted_key_exists(key, self.options)
-                and (self.force or not dotted_key_exists(key, options))
-            )
+            for key in self.evaluatable.keys(mixed)
+            if not self._preset(key, options, mixed)
         }
 
     def explain(self, options: Optional[Options] = None) -> Set[str]:
         """Return the explanation for the wrapped Evaluatable object."""
         options = options or {}
+        mixed = self._options(options)
         return {
             key
-            for key in self.evaluatable.explain(self._options(options))
-            if not (
-                dotted_key_exists(key, self.options)
-                and (self.force or not dotted_key_exists(key, options))
-            )
+            for key in self.evaluatable.explain(mixed)
+            if not self._preset(key, options, mixed)
         }
 
     def __repr__(self) -> str:
